@@ -7,6 +7,7 @@
 
 mod gen;
 mod harness;
+mod hashseed;
 mod l1;
 mod l2;
 mod props;
@@ -22,6 +23,7 @@ macro_rules! dispatch {
             "C07" => $f(&props::c07::C07 $(, $arg)*),
             "C10" => $f(&props::c10::C10 $(, $arg)*),
             "C11" => $f(&props::c11::C11 $(, $arg)*),
+            "C12" => $f(&props::c12::C12 $(, $arg)*),
             "C16" => $f(&props::c16::C16 $(, $arg)*),
             "C19" => $f(&props::c19::C19 $(, $arg)*),
             "C18" => $f(&props::c18::C18 $(, $arg)*),
